@@ -96,6 +96,8 @@ LIMIT_FOOT = 1e-12         # chord foot closer to the origin: straight-line limi
 FRACS = np.array([0.02, 0.15, 0.3, 0.5, 0.7, 0.85, 0.98])
 F9_KEY = "C14/subspace-sphere/ideal-basis>=3"
 
+import os
+DEBUG = bool(os.environ.get("GTMON_C14_DEBUG"))
 _ctx = {}                  # set by workloads: extra information for the hooks
 
 
@@ -150,6 +152,15 @@ def judge_units(mon, res, tol, key, what, case_of, mask=None):
         ratio = np.where(mask, ratio, -1.0)
     idx = np.unravel_index(int(np.argmax(ratio)), ratio.shape) if ratio.ndim else ()
     worst = float(ratio[idx]) if ratio.ndim else float(ratio)
+    if DEBUG and 0.05 < worst <= 1.0:
+        print("DEBUG", key, "%.3g" % worst, mon.run.current, "res %.3g tol %.3g"
+              % (float(res[idx]), float(tol[idx])), {k: v for k, v in case_of(idx).items()
+                                                     if k in ("P", "Q", "radius", "ideal_basis")})
+    if worst <= 1.0:
+        d = mon.run.extra.setdefault("max_ratio_by_check", {})
+        old = d.get(key)
+        if old is None or worst > old[0]:
+            d[key] = [float("%.3g" % worst)]
     if worst <= 1.0:
         return mon.judge(worst, 1.0, key, what, suspicious=0.2)
     return mon.judge(worst, 1.0, key,
@@ -165,6 +176,20 @@ def classify_points(X, margin=1e-6):
         k = rh.kind(X, margin)
     bad = ~np.all(np.isfinite(X), axis=-1) | (X[..., 0] == 0)
     return np.where(bad, "bad", k)
+
+
+def classify_endpoints(X):
+    """as classify_points but for user-given endpoints: 'ideal' only when
+    lightlike to rounding (|q| <= 1e-13), 'interior' when clearly timelike
+    (q < -1e-11), the band in between is 'bad' (not classifiable: a point at
+    distance > 12 from the origin or a sloppy ideal point)."""
+    X = np.asarray(X, dtype=float)
+    with np.errstate(all="ignore"):
+        q = rh.mink_sq(X) / np.sum(X * X, axis=-1)
+    out = np.where(q < -1e-11, "interior", np.where(np.abs(q) <= 1e-13, "ideal",
+                   np.where(q > 1e-6, "exterior", "bad")))
+    bad = ~np.all(np.isfinite(X), axis=-1) | (X[..., 0] == 0)
+    return np.where(bad, "bad", out)
 
 
 def klein_unit(X, kinds):
@@ -203,8 +228,8 @@ def model_pts(X, kinds, model):
 
 def seg_domain(P, Q, model):
     """-> (ok mask, reason array, dict of reference data) per unit."""
-    kp_kind = classify_points(P)
-    kq_kind = classify_points(Q)
+    kp_kind = classify_endpoints(P)
+    kq_kind = classify_endpoints(Q)
     ok = np.isin(kp_kind, ("interior", "ideal")) & np.isin(kq_kind, ("interior", "ideal"))
     kp = klein_unit(P, kp_kind)
     kq = klein_unit(Q, kq_kind)
@@ -214,8 +239,13 @@ def seg_domain(P, Q, model):
         E = rc.ideal_endpoints(kp, kq)
         u, tm, m, _ = rc.chord(kp, kq)
         foot = np.linalg.norm(m, axis=-1)
+    with np.errstate(all="ignore"):
+        sp = np.linalg.norm(P, axis=-1)
+        sq = np.linalg.norm(Q, axis=-1)
+        rep_ratio = np.maximum(sp, sq) / np.minimum(sp, sq)
+        a_rel = np.abs(rh.mink_sq(P - Q)) / (sp * sp + sq * sq)
     ref = {"kp": kp, "kq": kq, "sep": sep, "E": E, "foot": foot,
-           "pkind": kp_kind, "qkind": kq_kind}
+           "pkind": kp_kind, "qkind": kq_kind, "rep_ratio": rep_ratio, "a_rel": a_rel}
     if model == "halfspace":
         with np.errstate(all="ignore"):
             dinf = np.minimum(np.minimum(rc.inf_distance(kp), rc.inf_distance(kq)),
@@ -234,8 +264,8 @@ def circle_tols(ref, model, r_ref):
             t_on = 1e-7 + 1e-13 / sep ** 2
             t_c = t_on * np.maximum(1.0, r_ref) * 10.0
         else:
-            amp = np.maximum(1.0, 0.3 / ref["dinf"]) ** 2
-            t_on = (1e-5 + 3e-7 / sep) * amp
+            amp = np.maximum(1.0, 0.3 / ref["dinf"]) ** 2 * np.maximum(1.0, ref["rep_ratio"] / 3.0)
+            t_on = (3e-5 + 3e-7 / sep) * amp
             t_c = t_on * 2.0
     return t_on, t_c
 
@@ -283,14 +313,18 @@ def judge_circle(run, kind, P, Q, model, degrees, c, r, th, obj_desc):
     if model == "poincare":
         limit = ok & (ref["foot"] <= LIMIT_FOOT)
         if np.any(limit):
-            marker = ~np.isfinite(r) | (np.abs(r) > 1e12)
+            # 1e12, lowered by the conditioning of the ideal endpoints (short
+            # chord / nearly lightlike difference of the representatives)
+            with np.errstate(all="ignore"):
+                thr = 1e12 / np.maximum(1.0, 1e-2 / ref["a_rel"])
+            marker = ~np.isfinite(r) | (np.abs(r) > thr)
             bad = limit & ~marker
             run.note_class(kind, "straight-line-limit", n)
             if np.any(bad):
                 idx = tuple(np.argwhere(bad)[0])
                 mon_c.fail("%s-circle/finite-radius-in-straight-limit/poincare" % kind,
                            "chord through the origin but radius %r is neither "
-                           "non-finite nor > 1e12" % float(r[idx]), case_of(idx))
+                           "non-finite nor > %.3g" % (float(r[idx]), float(thr[idx])), case_of(idx))
             else:
                 mon_c.ok()
             arm(run, "straight-limit-marker", int(np.sum(limit)))
@@ -348,7 +382,11 @@ def judge_circle(run, kind, P, Q, model, degrees, c, r, th, obj_desc):
         e_err = rc.unordered_pair_error(ends, np.stack([pm, qm], axis=-2)) / np.maximum(rr, 1e-300)
         X = rc.arc_points(c, rr, th, FRACS)
         span = rc.arc_span(th)
-    t_ang = t_on * 4 + 1e-9
+    # the library's Poincare / half-space coordinates of an *ideal* endpoint
+    # carry sqrt(eps) ~ 1.5e-8 absolute error (square-root rule)
+    anyideal = (pk == "ideal") | (qk == "ideal")
+    with np.errstate(all="ignore"):
+        t_ang = t_on * 4 + 1e-9 + np.where(anyideal, 1e-6 / np.maximum(rr, 1e-300), 0.0)
     arcs = live & (t_ang * rr < 0.05)
     if np.any(live & ~arcs):
         mon_a.skip("arc check ill-conditioned (nearly straight and short)")
@@ -422,8 +460,8 @@ def setup(run):
         coords_model is given."""
         if not finite(P, Q):
             return m_ideal.skip("non-finite endpoint data")
-        pk = classify_points(P)
-        qk = classify_points(Q)
+        pk = classify_endpoints(P)
+        qk = classify_endpoints(Q)
         ok = np.isin(pk, ("interior", "ideal")) & np.isin(qk, ("interior", "ideal"))
         kp = klein_unit(P, pk)
         kq = klein_unit(Q, qk)
@@ -596,7 +634,10 @@ def setup(run):
         if model == "poincare":
             limit = ok & (foot <= LIMIT_FOOT)
             if np.any(limit):
-                marker = ~np.isfinite(r) | (np.abs(r) > 1e12)
+                with np.errstate(all="ignore"):
+                    thr = np.minimum(1e12 * np.minimum(1.0, sig) ** 2,
+                                     0.1 / np.maximum(null_defect, 1e-300))
+                marker = ~np.isfinite(r) | (np.abs(r) > thr)
                 bad = limit & ~marker
                 if np.any(bad):
                     idx = tuple(np.argwhere(bad)[0])
@@ -700,8 +741,8 @@ def setup(run):
             return None
         Cv = data[..., 0, :]
         Rv = data[..., 1, :]
-        ck = classify_points(Cv)
-        rk = classify_points(Rv)
+        ck = classify_endpoints(Cv)
+        rk = classify_endpoints(Rv)
         ok = (ck == "ideal") & (rk == "interior")
         e = klein_unit(Cv, ck)
         kref = rc.klein_of_proj(Rv)
@@ -807,7 +848,7 @@ def setup(run):
         r = as_float(r)
         P1 = data[..., 1, :]
         P2 = data[..., 2, :]
-        k2 = classify_points(P2)
+        k2 = classify_endpoints(P2)
         live = live & (k2 == "interior")
         if model == "halfspace":
             with np.errstate(all="ignore"):
@@ -936,7 +977,8 @@ def setup(run):
         frac = rc.angle_in_ccw_arc(out, ref)
         # general position: reference away from both ends, ends distinct
         z = np.exp(1j * th)
-        gp = (np.abs(z[..., 0] - z[..., 1]) > 1e-6) & \
+        gp = np.all(np.abs(th) <= math.pi + 1e-12, axis=-1) & (np.abs(ref) <= math.pi + 1e-12) & \
+             (np.abs(z[..., 0] - z[..., 1]) > 1e-6) & \
              (np.abs(np.exp(1j * ref) - z[..., 0]) > 1e-6) & \
              (np.abs(np.exp(1j * ref) - z[..., 1]) > 1e-6)
         swapped = np.abs(np.exp(1j * out[..., 0]) - z[..., 0]) > 1e-7
@@ -966,7 +1008,9 @@ def setup(run):
         out = as_float(call.result)
         if cen is None or co is None or out is None or not finite(cen, co):
             return m_util.skip("circle_angles: non-numeric")
-        if cen.shape[-1:] != (2,) or co.shape[-1:] != (2,) or co.ndim != cen.ndim + 1 \
+        if cen.shape[-1:] != (2,) or co.shape[-1:] != (2,):
+            return m_util.skip("circle_angles: dimension other than 2")
+        if co.ndim != cen.ndim + 1 \
                 or co.shape[:-2] != cen.shape[:-1] or out.shape != co.shape[:-1]:
             m_util.diag("circle_angles called without a unit axis on coords "
                         "(centre %r, coords %r)" % (cen.shape, co.shape))
